@@ -32,3 +32,9 @@ Definition q_fifo_step (s : list Z) (o : q_op) : list Z * q_res :=
 
 Definition q_fifo_spec (pre : list Z) : hw_spec q_op q_res :=
   {| hw_state := list Z; hw_init := pre; hw_step := q_fifo_step |}.
+
+(* values pushed / values popped by a history, in the order of the history *)
+Definition q_seq_pushes (S : hw_history q_op q_res) : list Z :=
+  flat_map (fun e => match e with HInv _ (QPush v) => [v] | _ => [] end) S.
+Definition q_seq_pops (S : hw_history q_op q_res) : list Z :=
+  flat_map (fun e => match e with HRes _ (QRPop (Some v)) => [v] | _ => [] end) S.
